@@ -5,7 +5,8 @@
 //!
 //! Op lines (inputs + data derived by the harness; derived parts are regenerated on `--replay`):
 //!   new <seed>                       fresh fetcher, self peer derived from <seed>; clears keys/local map
-//!   key <k> [<dist>]                 declares key k; <dist> = XOR distance key↔self (sha2 + XOR, computed here)
+//!   key <k> [<dist> <addr> <self>]   declares key k; <dist> = XOR distance key↔self (sha2 + XOR, computed here), then the
+//!                                    address bytes and this node's peer-id bytes (the model recomputes <dist> with its SHA-256)
 //!   local <k> <t> | unlocal <k>      edits the `locally_stored_keys` map handed to later `add` calls
 //!   add <h> <k:t,...|-> [<w>]        add_keys(holder h, list, local map); <w> = returned list `h:k:t,...` (choice witness)
 //!   put <k> <t> [<w>]                notify_about_new_put
@@ -274,8 +275,10 @@ fn exec(w: &mut Option<World>, line: &str, out: &mut Out) -> (String, String) {
     let (full, res) = match ws[0] {
         "key" => {
             let Some(k) = num(1) else { return bad(line) };
-            w.key(k);
-            (format!("key {k} {}", w.d(k)), "ok".to_string())
+            let (addr, _) = w.key(k);
+            // derived: the distance (sha2 + XOR here), then the bytes it is the distance of — the advertised address
+            // and this node's peer id; the model recomputes the number with its own SHA-256
+            (format!("key {k} {} {} {}", w.d(k), common::hex(&addr.as_bytes()), common::hex(&w.self_bytes)), "ok".to_string())
         }
         "local" => {
             let (Some(k), Some(t)) = (num(1), num(2)) else { return bad(line) };
